@@ -120,7 +120,13 @@ def chain_for(n, tag=0, refunds=False, flags='00'):
     if key not in _chains:
         rng = random.Random(f'chain{n}/{tag}')
         # (an empty seed is allowed: the chain is then sampled from fresh randomness, and must still be one consistent chain)
-        _chains[key] = (Chain(n, b'' if tag % 5 == 4 else rng.randbytes(32), rng, refunds, flags), Chain(n, rng.randbytes(32), rng))
+        if tag % 5 == 3:
+            # seeds longer than 32 bytes that share their first 32 bytes are still different chains
+            pre = rng.randbytes(32)
+            sa, sb = pre + rng.randbytes(16), pre + rng.randbytes(16)
+            _chains[key] = (Chain(n, sa, rng, refunds, flags), Chain(n, sb, rng))
+        else:
+            _chains[key] = (Chain(n, b'' if tag % 5 == 4 else rng.randbytes(32), rng, refunds, flags), Chain(n, rng.randbytes(32), rng))
     return _chains[key]
 
 
@@ -135,7 +141,7 @@ def scalar_of(a, b, nm, ix):
 def run_mc(k):
     got = None
     for flags in ('00', '01'):       # the whole chain set up without / with a sigflag masking one of the two sigfields
-        a, b = chain_for(k['n'], refunds=frozenset(k['refunds']), flags=flags)
+        a, b = chain_for(k['n'], tag=3 if flags == '01' else 0, refunds=frozenset(k['refunds']), flags=flags)
         if a.problems:
             return 'setup:' + a.problems[0], f'sigflags {flags}'
         if k['nm'] == 'F':
